@@ -254,6 +254,8 @@ def gen_sec_case(r):
     dirsel = r.weighted([("builtin", 3), ("env", 3), ("env-decoy", 2)])
     case = {"kind": "sec", "prog": "pdsh" if r.chance(3, 4) else "pdcp", "forced": [], "forced_via": "M", "files": fl, "order": None, "chain": chain,
             "run_as": run_as, "alt": alt, "dirsel": dirsel}
+    if dirsel == "env" and run_as == "nobody" and r.chance(1, 3):
+        case["padlen"] = r.choice([4060, 4070, 4077, 4080, 4084, 4086, 4090])
     if r.chance(1, 8):
         # the module directory lies on a second file system whose root has the inode number of "/"; above the mount point
         # stands a world-writable directory without the sticky bit: the walk up the ancestors must cross the mount point
@@ -368,7 +370,7 @@ def judge(ctx, rec, stats):
         ctx.violation("input", case=cr, expected="property clause", observed=msg, engine="mod", detail=msg)
         n += 1
         break
-    if n == 0 and spec["in_domain"]:
+    if n == 0 and spec["in_domain"] and not case.get("padlen"):     # a path near PATH_MAX may be refused for its length alone: safety only
         stats["in_domain"] += 1
         d = compare(obs, spec)
         if d is None:
@@ -385,7 +387,7 @@ def judge(ctx, rec, stats):
             ctx.violation("input", case=cr, expected=json.dumps(canon(spec))[:1500], observed=json.dumps(canon(obs))[:1500], engine="mod",
                           detail="real loader differs from the specification (highest priority per type/name, -M first, then priority-then-name, all-or-nothing options): " + d + hint)
             n += 1
-    if n == 0:
+    if n == 0 and not case.get("padlen"):
         d = compare(obs, mobs)
         if d is None:
             for c, tgt in obs["disp"].items():
@@ -479,6 +481,13 @@ def run(ctx):
                             cases.append({"kind": "sec", "prog": "pdsh", "forced": [], "forced_via": "M", "order": None, "chain": [[do, dm]], "run_as": ra, "alt": alt,
                                           "files": [{"fname": "only.so", "kind": "mod", "owner": fo, "mode": fm, "mod": m0}],
                                           "dirsel": "builtin" if ra == "root" else "env"})
+    # a module directory named with a path near PATH_MAX (the walk up its ancestors runs out of room) below a world-writable
+    # directory: whatever the loader does about the length, no code of that directory may run
+    m1 = {"type": "misc", "name": "lp", "prio": 100, "pers": 3, "initrc": 0, "opts": [["X", 0, 3]]}
+    for padlen in (range(4074, 4094, 2) if quick else range(4040, 4100)):
+        for chain in ([[0, 0o777]], [[0, 0o757], [0, 0o755]], [[0, 0o777]] + [[0, 0o755]] * 4, [[0, 0o757]] + [[0, 0o755]] * 7):
+            cases.append({"kind": "sec", "prog": "pdsh", "forced": [], "forced_via": "M", "order": None, "chain": chain, "run_as": "nobody", "alt": 0,
+                          "files": [{"fname": "lp.so", "kind": "mod", "owner": 0, "mode": 0o644, "mod": m1}], "dirsel": "env", "padlen": padlen})
     r = ctx.rng("perm")
     groups = []
     for i in range(14 if quick else 450):
